@@ -95,11 +95,12 @@ func Run(opts *Options) (int, error) {
 	var chunkList *ChunkList
 	var itemIndex int32
 	header := make([]string, 0, opts.HeaderLines)
+	headerUpdated := false
 	if opts.WithNth == nil {
 		chunkList = NewChunkList(cache, func(item *Item, data []byte) bool {
 			if len(header) < opts.HeaderLines {
 				header = append(header, byteString(data))
-				eventBox.Set(EvtHeader, header)
+				headerUpdated = true
 				return false
 			}
 			item.text, item.colors = ansiProcessor(data)
@@ -131,7 +132,7 @@ func Run(opts *Options) (int, error) {
 			transformed := nthTransformer(tokens, itemIndex)
 			if len(header) < opts.HeaderLines {
 				header = append(header, transformed)
-				eventBox.Set(EvtHeader, header)
+				headerUpdated = true
 				return false
 			}
 			item.text, item.colors = ansiProcessor(stringBytes(transformed))
@@ -168,8 +169,23 @@ func Run(opts *Options) (int, error) {
 	streamingFilter := opts.Filter != nil && !sort && !opts.Tac && !opts.Sync && opts.Tail == 0
 	var reader *Reader
 	if !streamingFilter {
+		var pushMutex sync.Mutex
 		reader = NewReader(func(data []byte) bool {
-			return chunkList.Push(data)
+			if opts.HeaderLines == 0 {
+				return chunkList.Push(data)
+			}
+			// The header is posted after the list has released its lock: the event
+			// loop takes snapshots of the list while it holds the event box, so
+			// posting from inside Push can deadlock. pushMutex keeps the posts in
+			// the order of the pushes.
+			pushMutex.Lock()
+			defer pushMutex.Unlock()
+			pushed := chunkList.Push(data)
+			if headerUpdated {
+				headerUpdated = false
+				eventBox.Set(EvtHeader, header)
+			}
+			return pushed
 		}, eventBox, executor, opts.ReadZero, opts.Filter == nil)
 
 		readyChan := make(chan bool)
@@ -326,6 +342,7 @@ func Run(opts *Options) (int, error) {
 		lineAnsiState = nil
 		inputRevision.bumpMajor()
 		header = make([]string, 0, opts.HeaderLines)
+		headerUpdated = false
 		readyChan := make(chan bool)
 		go reader.restart(command, environ, readyChan)
 		<-readyChan
